@@ -424,7 +424,7 @@ func (a *Act) autoInvs(h *ssa.BasicBlock, st *State) [][2]string {
 		return out
 	}
 	for _, k := range sortedKeys(wl.heaps) {
-		if strings.HasPrefix(k, "IT:") || k == "G:chancap" || k == "G:chanclosed" || k == "G:held" || k == "G:lockuses" || anyKey[k] || top.modelFieldKey(k) {
+		if strings.HasPrefix(k, "IT:") || k == "G:chancap" || k == "G:chanclosed" || k == "G:held" || k == "G:lockuses" || k == "G:nsent" || anyKey[k] || top.modelFieldKey(k) {
 			continue
 		}
 		srt := a.vc.heapSorts[k]
